@@ -17,6 +17,17 @@
 (* every pair of thresholds in Thresholds and every outcome sequence of    *)
 (* length <= MaxResults.                                                   *)
 (*                                                                         *)
+(* Run-time reconfiguration (Monitor.ResetHealthCheck, monitor.go:94-113,   *)
+(* reached through OnSvcConfigUpdate of the processors): the new config     *)
+(* replaces m.config; the counters of the hosts are NOT touched, so the     *)
+(* running counts are compared with the new thresholds from the next result *)
+(* on.  rise/fall are the CONFIGURED thresholds (the last accepted config), *)
+(* mrise/mfall the ones the monitor compares with; in the real code they    *)
+(* are the same.  IgnoreSameInterval = TRUE is the regression "an update    *)
+(* that keeps the interval returns before m.config = config": the monitor   *)
+(* keeps its old thresholds, which must violate FlipOnlyAfterThreshold      *)
+(* (judged against the thresholds in force = configured).                   *)
+(*                                                                         *)
 (* Ghost: streakKind/streakLen = kind and length of the trailing run of    *)
 (* identical results of the WHOLE history (independent of the code's       *)
 (* counters and of their resets); lastFlip = the last flip and the length  *)
@@ -26,16 +37,19 @@ EXTENDS Naturals, Sequences, TLC
 
 CONSTANTS Thresholds,   \* e.g. {1,2,3}
           MaxResults,   \* e.g. 8
-          CmpStrict     \* TRUE: the code's comparison `n > threshold`; FALSE: `n >= threshold`
+          CmpStrict,    \* TRUE: the code's comparison `n > threshold`; FALSE: `n >= threshold`
+          MaxReconf,    \* reconfigurations per behaviour
+          IgnoreSameInterval  \* TRUE: an update that keeps the interval is accepted and not applied
 
-VARIABLES rise, fall, flag, succ, fail, n, streakKind, streakLen, lastFlip, nflips
+VARIABLES rise, fall, mrise, mfall, flag, succ, fail, n, streakKind, streakLen, lastFlip, nflips, nreconf, reconfInStreak
 
-vars == <<rise, fall, flag, succ, fail, n, streakKind, streakLen, lastFlip, nflips>>
+vars == <<rise, fall, mrise, mfall, flag, succ, fail, n, streakKind, streakLen, lastFlip, nflips, nreconf, reconfInStreak>>
 
-NoFlip == [dir |-> "none", run |-> 0, kind |-> "none"]
+NoFlip == [dir |-> "none", run |-> 0, kind |-> "none", need |-> 0]
 
 Init ==
   /\ rise \in Thresholds /\ fall \in Thresholds
+  /\ mrise = rise /\ mfall = fall /\ nreconf = 0 /\ reconfInStreak = FALSE
   /\ flag = TRUE                      \* NewStats
   /\ succ = 0 /\ fail = 0 /\ n = 0
   /\ streakKind = "none" /\ streakLen = 0
@@ -48,34 +62,49 @@ Success ==
   /\ n' = n + 1
   /\ streakLen' = IF streakKind = "ok" THEN streakLen + 1 ELSE 1
   /\ streakKind' = "ok"
-  /\ IF Reached(succ + 1, rise)
+  /\ reconfInStreak' = (streakKind = "ok" /\ reconfInStreak)
+  /\ IF Reached(succ + 1, mrise)
      THEN /\ succ' = 0 /\ fail' = 0
           /\ IF ~flag
              THEN /\ flag' = TRUE
-                  /\ lastFlip' = [dir |-> "healthy", run |-> streakLen', kind |-> "ok"]
+                  /\ lastFlip' = [dir |-> "healthy", run |-> streakLen', kind |-> "ok", need |-> rise]
                   /\ nflips' = nflips + 1
              ELSE UNCHANGED <<flag, lastFlip, nflips>>
      ELSE /\ succ' = succ + 1 /\ fail' = 0
           /\ UNCHANGED <<flag, lastFlip, nflips>>
-  /\ UNCHANGED <<rise, fall>>
+  /\ UNCHANGED <<rise, fall, mrise, mfall, nreconf>>
 
 Failure ==
   /\ n < MaxResults
   /\ n' = n + 1
   /\ streakLen' = IF streakKind = "bad" THEN streakLen + 1 ELSE 1
   /\ streakKind' = "bad"
-  /\ IF Reached(fail + 1, fall)
+  /\ reconfInStreak' = (streakKind = "bad" /\ reconfInStreak)
+  /\ IF Reached(fail + 1, mfall)
      THEN /\ succ' = 0 /\ fail' = 0
           /\ IF flag
              THEN /\ flag' = FALSE
-                  /\ lastFlip' = [dir |-> "unhealthy", run |-> streakLen', kind |-> "bad"]
+                  /\ lastFlip' = [dir |-> "unhealthy", run |-> streakLen', kind |-> "bad", need |-> fall]
                   /\ nflips' = nflips + 1
              ELSE UNCHANGED <<flag, lastFlip, nflips>>
      ELSE /\ fail' = fail + 1 /\ succ' = 0
           /\ UNCHANGED <<flag, lastFlip, nflips>>
-  /\ UNCHANGED <<rise, fall>>
+  /\ UNCHANGED <<rise, fall, mrise, mfall, nreconf>>
 
-Next == Success \/ Failure
+\* ResetHealthCheck(config) between two results; ic: the new config changes the interval
+Reconfigure(r, f, ic) ==
+  /\ nreconf < MaxReconf /\ n < MaxResults
+  /\ nreconf' = nreconf + 1
+  /\ rise' = r /\ fall' = f
+  /\ IF IgnoreSameInterval /\ ~ic
+     THEN UNCHANGED <<mrise, mfall>>
+     ELSE mrise' = r /\ mfall' = f
+  /\ reconfInStreak' = TRUE
+  /\ UNCHANGED <<flag, succ, fail, n, streakKind, streakLen, lastFlip, nflips>>   \* the counters are not touched
+
+Next ==
+  \/ Success \/ Failure
+  \/ \E r \in Thresholds, f \in Thresholds, ic \in BOOLEAN : (r # rise \/ f # fall) /\ Reconfigure(r, f, ic)
 
 Spec == Init /\ [][Next]_vars
 
@@ -87,8 +116,9 @@ TypeOK ==
 \* C15: the health flips only after at least the configured number of consecutive contrary
 \* results; any opposite result restarts the count (the run is the TRAILING run of the history)
 FlipOnlyAfterThreshold ==
-  /\ lastFlip.dir = "unhealthy" => lastFlip.kind = "bad" /\ lastFlip.run >= fall
-  /\ lastFlip.dir = "healthy"   => lastFlip.kind = "ok"  /\ lastFlip.run >= rise
+  \* need: the threshold configured (in force) when the flip happened
+  /\ lastFlip.dir = "unhealthy" => lastFlip.kind = "bad" /\ lastFlip.run >= lastFlip.need
+  /\ lastFlip.dir = "healthy"   => lastFlip.kind = "ok"  /\ lastFlip.run >= lastFlip.need
 
 \* only one of the two counters is ever non-zero (they reset each other)
 CountersExclusive == succ = 0 \/ fail = 0
@@ -97,13 +127,14 @@ CountersExclusive == succ = 0 \/ fail = 0
 \* after the threshold, i.e. with `>` the flip happens at exactly threshold + 1 contrary results
 PromptFlip ==
   LET slack == IF CmpStrict THEN 1 ELSE 0 IN
-  /\ flag /\ streakKind = "bad" => streakLen < fall + slack
-  /\ ~flag /\ streakKind = "ok" => streakLen < rise + slack
+  \* (for runs of results during which the thresholds were not changed)
+  /\ flag /\ streakKind = "bad" /\ ~reconfInStreak => streakLen < fall + slack
+  /\ ~flag /\ streakKind = "ok" /\ ~reconfInStreak => streakLen < rise + slack
 
 \* trap (must be violated): the documented reading "dead after # consecutive failures"
 FlipsAtThreshold ==
-  /\ flag /\ streakKind = "bad" => streakLen < fall
-  /\ ~flag /\ streakKind = "ok" => streakLen < rise
+  /\ flag /\ streakKind = "bad" /\ ~reconfInStreak => streakLen < fall
+  /\ ~flag /\ streakKind = "ok" /\ ~reconfInStreak => streakLen < rise
 
 \* trap (must be violated): flips in both directions are reachable within the bound
 NoFlipBack == nflips < 2
